@@ -249,6 +249,11 @@ SpansOk(t, offs, s, m, parent) ==
         LET w == WholeValue(Slice(t, m.sp, offs)) IN w.ok /\ Plain(w.v) = Plain(s)
   /\ (m.sp # <<>> /\ s.k \in {"t", "a"} /\ s.sp # NoSpan) =>
         LET w == WholeValue(Slice(t, m.sp, offs)) IN w.ok /\ Plain(w.v) = Plain(s)
+  \* an array of tables (no span in the grammar: its elements are scattered) is reported from the first element's
+  \* header to the end of the last element: the elements lie inside it and it starts and ends exactly with them
+  /\ (s.k = "a" /\ s.sp = NoSpan /\ m.sp # <<>> /\ Len(m.v) > 0 /\ \A x \in 1..Len(m.v) : m.v[x].sp # <<>>) =>
+        /\ \A x \in 1..Len(m.v) : Within(m.v[x].sp, m.sp)
+        /\ m.sp[1] = m.v[1].sp[1] /\ m.sp[2] = m.v[Len(m.v)].sp[2]
   /\ CASE s.k = "a" -> Len(s.v) = Len(m.v) /\ \A x \in 1..Len(s.v) : SpansOk(t, offs, s.v[x], m.v[x], IF s.sp # NoSpan THEN m.sp ELSE <<>>)
        [] s.k = "t" ->
             /\ Len(s.v) = Len(m.v)
@@ -287,7 +292,7 @@ NoSpans(m) ==
        [] m.k = "t" -> \A x \in 1..Len(m.v) : m.v[x].ksp = <<>> /\ NoSpans(m.v[x].val)
        [] OTHER -> TRUE
 
-KindOfTy(ty) == CASE ty = "i64" -> {"i"} [] ty = "f64" -> {"f", "i"} [] ty = "bool" -> {"b"} [] ty = "string" -> {"s"}
+KindOfTy(ty) == CASE ty \in {"i64", "newtype_i64"} -> {"i"} [] ty \in {"int_array", "newtype_int_array"} -> {"a"} [] ty = "f64" -> {"f", "i"} [] ty = "bool" -> {"b"} [] ty = "string" -> {"s"}
                   [] ty = "datetime" -> {"dt", "t"}  \* Datetime is decoded from a map: a table is rejected for its content, not its kind [] ty \in {"array", "array_spanned"} -> {"a"}
                   [] ty \in {"table", "table_spanned"} -> {"t"} [] ty = "enum" -> {"s", "t"}   \* an externally tagged enum is also read from a one-key table
                   [] ty \in {"enum_array", "enum_tuple_array"} -> {"a"} [] OTHER -> {"s", "i", "f", "b", "dt", "a", "t"}
@@ -295,8 +300,12 @@ KindOfTy(ty) == CASE ty = "i64" -> {"i"} [] ty = "f64" -> {"f", "i"} [] ty = "bo
 IsVariant(v) == v.k = "s" /\ v.v \in {<<97>>, <<98>>}
 FirstBad(vs, pick(_)) == LET bad == {x \in 1..Len(vs) : ~IsVariant(pick(vs[x])) /\ pick(vs[x]).k = "s"} IN
                          IF bad = {} THEN NoSpan ELSE pick(vs[CHOOSE x \in bad : \A y \in bad : x <= y]).sp
+\* integer-array targets (bare and behind a newtype struct): the first element that is not an integer
+FirstNonInt(vs) == LET bad == {x \in 1..Len(vs) : vs[x].k # "i"} IN
+                   IF bad = {} THEN NoSpan ELSE vs[CHOOSE x \in bad : \A y \in bad : x <= y].sp
 BadVariantSpan(ty, kv) ==
-  CASE ty = "enum" /\ kv.k = "s" /\ ~IsVariant(kv) -> kv.sp
+  CASE ty \in {"int_array", "newtype_int_array"} /\ kv.k = "a" -> FirstNonInt(kv.v)
+    [] ty = "enum" /\ kv.k = "s" /\ ~IsVariant(kv) -> kv.sp
     [] ty = "enum_array" /\ kv.k = "a" /\ (\A x \in 1..Len(kv.v) : kv.v[x].k = "s") -> FirstBad(kv.v, LAMBDA e : e)
     [] ty = "enum_tuple_array" /\ kv.k = "a" /\ (\A x \in 1..Len(kv.v) : kv.v[x].k = "a" /\ Len(kv.v[x].v) = 2 /\ kv.v[x].v[1].k = "s" /\ kv.v[x].v[2].k = "i")
          -> FirstBad(kv.v, LAMBDA e : e.v[1])
@@ -337,6 +346,12 @@ CheckSpan(i) ==
                /\ (y.from_docmut.res = "err" /\ hasK /\ (kv.k \notin KindOfTy(y.ty) \/ BadVariantSpan(y.ty, kv) # NoSpan)) =>
                     IF y.from_docmut.span = <<>> /\ FindFrom(y.from_docmut.rendered, <<105, 110, 32, 96, 107, 96>>, 1) > 0
                     THEN TRUE ELSE Report(i, "err-keypath-location", [ty |-> y.ty, span |-> y.from_docmut.span, rendered |-> y.from_docmut.rendered]) /\ FALSE
+               \* C14 / C15: the route through str::parse::<toml_edit::de::Deserializer>() has the source text: same
+               \* verdict, value and error location as from_str
+               /\ IF y.de_fromstr.res = y.plain.res /\ (y.plain.res = "ok" => y.de_fromstr.val = y.plain.val)
+                     /\ (y.plain.res = "err" => y.de_fromstr.span = y.plain.err.span)
+                  THEN TRUE ELSE Report(i, "err-type-location", [ty |-> y.ty, route |-> "FromStr for toml_edit::de::Deserializer",
+                                                                   plain |-> y.plain.err, got |-> y.de_fromstr]) /\ FALSE
                \* C15: an unknown enum variant is located at the string that names it
                /\ (hasK /\ BadVariantSpan(y.ty, kv) # NoSpan) =>
                     IF y.plain.res = "err" /\ y.plain.err.msg_nonempty /\ y.plain.err.span = ByteSpan(BadVariantSpan(y.ty, kv), offs)
@@ -532,7 +547,9 @@ CheckMacro(i) ==
        IF e.parsed_ok /\ SameV(p.tree, e.parsed, FALSE) THEN TRUE ELSE Report(i, "macro-parsed-tree", [ok |-> e.parsed_ok]) /\ FALSE})
 
 \* ---- C08: structural edits through the API, the printed text after every step ----
-FixEditOp(o) == [op |-> o.op, path |-> o.path, key |-> o.key, v |-> o.v, i |-> o.i]
+\* retain(|..| not this one) is a removal spelled through the predicate API: same contract
+EditOpName(n) == CASE n = "retain_not" -> "remove" [] n = "array_retain_not" -> "array_remove" [] n = "aot_retain_not" -> "aot_remove" [] OTHER -> n
+FixEditOp(o) == [op |-> EditOpName(o.op), path |-> o.path, key |-> o.key, v |-> o.v, i |-> o.i]
 RECURSIVE EditSteps(_, _, _, _, _)
 \* prev = text before step j; returns TRUE when every remaining step conforms
 \* loose0 = an earlier step created a table through the API (it has no position: sections may move as wholes)
